@@ -1,3 +1,202 @@
+import QmiModel.Model.Scpi
+import QmiModel.Model.Usbtmc
 import Drv.Common
-/-! stub driver for C15: replaced when the model is built -/
-def main : IO Unit := Drv.main' (fun (s : Unit) _ => (s, "bad-op")) ()
+/-!
+Line-protocol driver for C15 part A (SCPI + USBTMC).  Stateless: every line carries the whole
+configuration and state.  Tokens are separated by one blank.
+
+  bytes      : hex, `-` for the empty string
+  list       : items joined by `,`; `-` is the empty list; inside a list the empty byte string is `z`
+  code points: decimal numbers joined by `,`; `-` is the empty string
+  option nat : decimal or `-`
+-/
+open QmiModel
+
+namespace Drv.C15
+
+def optNat (s : String) : Option (Option Nat) :=
+  if s == "-" then some none else s.toNat?.map some
+
+def natList (s : String) : Option (List Nat) :=
+  if s == "-" then some [] else (s.splitOn ",").mapM (·.toNat?)
+
+def bool01 (s : String) : Option Bool :=
+  if s == "0" then some false else if s == "1" then some true else none
+
+def item (s : String) : Option (List UInt8) :=
+  if s == "z" then some [] else if s == "-" then none else Drv.unhex s
+
+def itemList (s : String) : Option (List (List UInt8)) :=
+  if s == "-" then some [] else (s.splitOn ",").mapM item
+
+def showItem (b : List UInt8) : String := if b.isEmpty then "z" else Drv.hex b
+
+def showItems (l : List (List UInt8)) : String :=
+  if l.isEmpty then "-" else ",".intercalate (l.map showItem)
+
+def showOptNat : Option Nat → String
+  | none => "-"
+  | some n => toString n
+
+def showNats (l : List Nat) : String :=
+  if l.isEmpty then "-" else ",".intercalate (l.map toString)
+
+def int? (s : String) : Option Int :=
+  if s.startsWith "-" then (s.drop 1).toNat?.map (fun n => -(n : Int)) else s.toNat?.map (fun n => (n : Int))
+
+/-! #### SCPI -/
+
+def scpiExc : Scpi.PyExc → String
+  | .instrument => "exc:QMI_InstrumentException"
+  | .timeout => "exc:QMI_TimeoutException"
+  | .unicodeEncode => "exc:UnicodeEncodeError"
+  | .unicodeDecode => "exc:UnicodeDecodeError"
+  | .indexError => "exc:IndexError"
+
+def showCall : Scpi.Call → String
+  | .write b => s!"w:{Drv.hex b}"
+  | .read n to => s!"r:{n}:{showOptNat to}"
+  | .readUntil t to => s!"u:{Drv.hex t}:{showOptNat to}"
+  | .discard => "d"
+
+def showLog (l : List Scpi.Call) : String :=
+  if l.isEmpty then "-" else ";".intercalate (l.map showCall)
+
+def scpiCfg (ct rt dflt : String) : Option (Except Scpi.PyExc Scpi.Cfg) := do
+  let c ← natList ct
+  let r ← natList rt
+  let d ← optNat dflt
+  pure (Scpi.mkCfg c r d)
+
+def scpiLine : List String → String
+  | ["s.init", ct, rt] =>
+    match scpiCfg ct rt "-" with
+    | some (.ok _) => "ok"
+    | some (.error e) => scpiExc e
+    | none => "bad-op"
+  | ["s.write", ct, rt, cmd] =>
+    match scpiCfg ct rt "-", natList cmd with
+    | some (.ok cfg), some c =>
+      match Scpi.write cfg { rx := [] } c with
+      | (t, .ok ()) => s!"ok log={showLog t.log}"
+      | (t, .error e) => s!"{scpiExc e} log={showLog t.log}"
+    | some (.error e), some _ => scpiExc e
+    | _, _ => "bad-op"
+  | ["s.writeraw", ct, rt, cmd] =>
+    match scpiCfg ct rt "-", Drv.unhex cmd with
+    | some (.ok cfg), some c => s!"ok log={showLog (Scpi.writeRaw cfg { rx := [] } c).log}"
+    | some (.error e), some _ => scpiExc e
+    | _, _ => "bad-op"
+  | ["s.ask", ct, rt, dflt, to, discard, sloppy, cmd, rx, pending] =>
+    match scpiCfg ct rt dflt, optNat to, bool01 discard, bool01 sloppy, natList cmd, Drv.unhex rx, Drv.unhex pending with
+    | some (.ok cfg), some to, some dc, some sl, some c, some rx, some pending =>
+      match Scpi.ask cfg { rx, pending, sloppy := sl } c to dc with
+      | (t, .ok r) => s!"ok {Drv.hex (r.map UInt8.ofNat)} log={showLog t.log} rx={Drv.hex t.rx}"
+      | (t, .error e) => s!"{scpiExc e} log={showLog t.log} rx={Drv.hex t.rx}"
+    | some (.error e), some _, some _, some _, some _, some _, some _ => scpiExc e
+    | _, _, _, _, _, _, _ => "bad-op"
+  | ["s.bin", ct, rt, dflt, to, flag, rx] =>
+    match scpiCfg ct rt dflt, optNat to, bool01 flag, Drv.unhex rx with
+    | some (.ok cfg), some to, some fl, some rx =>
+      match Scpi.readBinary cfg { rx } fl to with
+      | (t, .ok d) => s!"ok {Drv.hex d} log={showLog t.log} rx={Drv.hex t.rx}"
+      | (t, .error e) => s!"{scpiExc e} log={showLog t.log} rx={Drv.hex t.rx}"
+    | some (.error e), some _, some _, some _ => scpiExc e
+    | _, _, _, _ => "bad-op"
+  | ["s.block", rt, d] =>      -- the model's own device encoder (IEEE 488.2 definite length block + terminator)
+    match Drv.unhex rt, Drv.unhex d with
+    | some rt, some d => Drv.hex (Scpi.encodeBlock rt d)
+    | _, _ => "bad-op"
+  | _ => "bad-op"
+
+/-! #### USBTMC -/
+
+def usbExc : Usbtmc.PyExc → String
+  | .structError => "exc:struct.error"
+  | .usbTimeout => "exc:USBError:110"
+  | .usbError => "exc:USBError:5"
+  | .hang => "hang"
+
+def termChar? (s : String) : Option (Option UInt8) :=
+  if s == "-" then some none
+  else match s.toNat? with
+    | some n => if n < 256 then some (some (UInt8.ofNat n)) else none
+    | none => none
+
+def fault? (s : String) : Option (Option (Nat × Bool)) :=
+  if s == "-" then some none
+  else match s.splitOn ":" with
+    | [k, "t"] => k.toNat?.map (fun k => some (k, true))
+    | [k, "e"] => k.toNat?.map (fun k => some (k, false))
+    | _ => none
+
+def ev? (s : String) : Option Usbtmc.Ev :=
+  if s == "!" then some .ioErr else (item s).map .data
+
+def script? (s : String) : Option (List Usbtmc.Ev) :=
+  if s == "-" then some [] else (s.splitOn ",").mapM ev?
+
+def usbLine : List String → String
+  | ["u.consts"] =>
+    s!"hdr={Usbtmc.HEADER_SIZE} out={Usbtmc.MSGID_DEV_DEP_MSG_OUT} in={Usbtmc.MSGID_REQUEST_DEV_DEP_MSG_IN}"
+  | ["u.hdr", last, msgid] =>
+    match last.toNat?, msgid.toNat? with
+    | some l, some m =>
+      if m < 256 then s!"ok tag={Usbtmc.nextTag l} {Drv.hex (Usbtmc.bulkOutHeader m (Usbtmc.nextTag l))}" else "bad-op"
+    | _, _ => "bad-op"
+  | ["u.packout", last, size, eom] =>
+    match last.toNat?, size.toNat?, bool01 eom with
+    | some l, some n, some e =>
+      match Usbtmc.packOut l n e with
+      | (t, .ok h) => s!"ok tag={t} {Drv.hex h}"
+      | (t, .error x) => s!"{usbExc x} tag={t}"
+    | _, _, _ => "bad-op"
+  | ["u.packin", last, size, tc] =>
+    match last.toNat?, size.toNat?, termChar? tc with
+    | some l, some n, some c =>
+      match Usbtmc.packIn l n c with
+      | (t, .ok h) => s!"ok tag={t} {Drv.hex h}"
+      | (t, .error x) => s!"{usbExc x} tag={t}"
+    | _, _, _ => "bad-op"
+  | ["u.unpack", resp] =>
+    match Drv.unhex resp with
+    | some r =>
+      match Usbtmc.unpackResp r with
+      | some (m, t, ti, ts, a, d) => s!"ok {m.toNat} {t.toNat} {ti.toNat} {ts} {a.toNat} {Drv.hex d}"
+      | none => "exc:struct.error"
+    | none => "bad-op"
+  | ["u.write", last, mts, fault, data] =>
+    match last.toNat?, mts.toNat?, fault? fault, Drv.unhex data with
+    | some l, some m, some f, some d =>
+      let r := Usbtmc.writeRaw m f l d
+      let head := match r.exc with | none => "ok" | some e => usbExc e
+      s!"{head} tag={r.last} abort={showOptNat r.abortTag} sent={showItems r.sent}"
+    | _, _, _, _ => "bad-op"
+  | ["u.read", last, mts, tc, rigol, adv, num, script] =>
+    match last.toNat?, mts.toNat?, termChar? tc, bool01 rigol, bool01 adv, int? num, script? script with
+    | some l, some m, some c, some rg, some ad, some n, some sc =>
+      let r := Usbtmc.readRaw { mts := m, termChar := c, rigol := rg, advantest := ad } l n sc
+      let head := match r.res with | .ok d => s!"ok {Drv.hex d}" | .error e => usbExc e
+      s!"{head} tag={r.rs.last} abort={showOptNat r.abortTag} reqs={showItems r.rs.reqs} sizes={showNats r.rs.sizes} left={r.left.length}"
+    | _, _, _, _, _, _, _ => "bad-op"
+  | ["u.dev", prev, transfers] =>      -- the reference device decoder of the model (USBTMC 1.0 §3.2)
+    match optNat prev, itemList transfers with
+    | some p, some ts =>
+      match Usbtmc.Dev.run { prev := p } ts with
+      | some d => s!"ok prev={showOptNat d.prev} acc={Drv.hex d.acc} msgs={showItems d.msgs}"
+      | none => "reject"
+    | _, _ => "bad-op"
+  | _ => "bad-op"
+
+def stepLine (_ : Unit) (line : String) : Unit × String :=
+  let toks := line.splitOn " "
+  match toks with
+  | op :: _ =>
+    if op.startsWith "s." then ((), scpiLine toks)
+    else if op.startsWith "u." then ((), usbLine toks)
+    else ((), "bad-op")
+  | [] => ((), "bad-op")
+
+end Drv.C15
+
+def main : IO Unit := Drv.main' Drv.C15.stepLine ()
